@@ -70,7 +70,7 @@ def check(c):
 
     # ---- valid images -----------------------------------------------------
     hists = [h for h in BASE_HISTORIES]
-    for _ in range(6 if c.tier == 'quick' else 40):
+    for _ in range(6 if c.tier == 'quick' else 12):
         hists.append(S.gen_history(r, builtins, 1, 3)[0])
     saved = c.impl(S.AREA, [sx([Sym('save')] + h) for h in hists], timeout=40)
     images = []
@@ -162,15 +162,10 @@ def check(c):
                 continue
             c.violation('accept-reject-differs-from-model', dict(replay, kind='impl-vs-model', layer='L2 accept/reject'), no_input=True)
             continue
-        Af = fp[-1] if isinstance(fp, list) and isinstance(fp[-1], int) else 0
         if A > 4096 and A > observed:
-            if Af <= observed:
-                # the request the pinned reader would make was not made, the capped one of the repaired
-                # reader was: a different (smaller) pre-allocation, same result
-                c.repr_drift += 1
-            else:
-                c.violation('allocation-differs-from-model', dict(replay, kind='impl-vs-model', layer='max allocation request', observed=observed, model=A, model_fixed=Af), no_input=True)
-                continue
+            # the implementation pre-allocated less than the model of the pinned reader predicts (a capped or
+            # dropped with_capacity): same result, different allocation strategy - never worse for the property
+            c.repr_drift += 1
         if ik == 'ok':
             ents = S.split_entries(tp)
             p2k, p2 = kind_of(m2.get(i, ''))
